@@ -198,7 +198,13 @@ func c06Round(rep *vk.Report, idx int) {
 		var res int
 		var err error
 		if wr.IntN(3) == 0 {
-			res, err = ex.GetWithExecutionAsync(fn).Get()
+			ar := ex.GetWithExecutionAsync(fn)
+			if wr.IntN(3) == 0 {
+				// ExecutionResult.Cancel while the execution waits for a permit or holds one
+				time.Sleep(time.Duration(wr.IntN(600)) * time.Microsecond)
+				ar.Cancel()
+			}
+			res, err = ar.Get()
 		} else {
 			res, err = ex.GetWithExecution(fn)
 		}
@@ -215,7 +221,7 @@ func c06Round(rep *vk.Report, idx int) {
 				bad.CompareAndSwap(nil, &s)
 			}
 		}
-		if cs.Comp == "bh" && (errors.Is(err, context.Canceled) || errors.Is(err, context.DeadlineExceeded)) {
+		if cs.Comp == "bh" && (errors.Is(err, context.Canceled) || errors.Is(err, context.DeadlineExceeded) || errors.Is(err, failsafe.ErrExecutionCanceled)) {
 			cancelledWaiting.Add(1)
 			if entered.Load() != 0 {
 				s := fmt.Sprintf("execution ended with %v (cancelled while waiting for a permit) although its function was entered", err)
